@@ -184,6 +184,21 @@ class Check:
                 self.samples.append(s)
         self.failures.extend(failures)
 
+    # ------------------------------------------------------------------ escalation of the failing-input search
+    def needs_escalation(self):
+        """a proof obligation or a correspondence is broken and no failing input (other than known findings) has been found yet:
+        the check may then widen its search on the real code, aimed at what broke"""
+        sigs = {e["signature"] for e in load_known().get("findings", []) if e["property"] == self.pid}
+        return bool(self.broken) and not any(f["signature"] not in sigs for f in self.failures)
+
+    def broken_opts(self):
+        out = []
+        for b in self.broken:
+            c = b.get("case")
+            if isinstance(c, dict) and c.get("opt") and c["opt"] not in out:
+                out.append(c["opt"])
+        return out
+
     # ------------------------------------------------------------------ verdict
     def finish(self):
         known = load_known()
